@@ -54,6 +54,7 @@ import bqskit.utils.random as _R
 if not hasattr(_R.find_library, 'cache_info'):
     _R.find_library = _functools.lru_cache(None)(_R.find_library)
 
+
 # ------------------------------------------------------------ shared state
 TRACE: list = []
 SCRIPTS: dict = {}
